@@ -10,4 +10,7 @@ namespace Sageopt.Props.C16
 theorem row_tol_value :
     Generated.SymCorrConsts.rowTolNum = 1 ∧ Generated.SymCorrConsts.rowTolDen = 100000000 := by decide
 
+/-- the matching code still has the shape the model `SymCorr.rowMatch` describes (a strict comparison with the tolerance) -/
+theorem row_match_shape : Generated.SymCorrConsts.rowMatchShape = true := by decide
+
 end Sageopt.Props.C16
